@@ -234,6 +234,7 @@ func ruleC05(c *Ctx, r *Report) {
 	r.Floor("C05-R2", 7, "five string classes + number + boolean")
 	sf := ph.scalarFn
 	scalarStepMemberPathRule(c, r, p, sf, "C05-R2")
+	wrapperMemberNamesRule(c, r, p, "C05-R2")
 	classesSeen := map[string]bool{}
 	for _, call := range callsIn(sf, func(k string, cc *ssa.Call) bool { return cc.Call.StaticCallee() == ph.choke }) {
 		atoms := p.atomsAt(call.Block())
@@ -906,5 +907,123 @@ func scalarStepMemberPathRule(c *Ctx, r *Report, p *Prov, sf *ssa.Function, rule
 	r.Analysed["scalar_step_member_calls"] = n
 	if n < 3 {
 		r.Bad(rule, "scalar-step-member-calls", "-", fmt.Sprintf("anchor lost: only %d calls of the scalar step with a document member (7 today)", n))
+	}
+}
+
+// wrapperMemberNamesRule (C05-R2 / C15-R4): under --redactFieldNames the walkers rename the keys
+// of the documents they rebuild. The members of an extended-JSON wrapper - {$binary:{base64,
+// subType}}, {$regularExpression:{pattern, options}}, {$timestamp:{t, i}} - are syntax, not
+// field names: renaming them turns a typed value into a document no extended-JSON reader
+// accepts (and moves the payload out of the position the class placeholder is chosen for).
+// Every site where a walker stores a member under HashName(<its key>) must therefore lie under
+// the negative outcome of the wrapper-member test applied to that key (a package predicate
+// that knows `$binary`, `base64` and `subType`), or under a table classification that fixes
+// what the parent is (a Pipeline-typed position: the output names of $facet).
+func wrapperMemberNamesRule(c *Ctx, r *Report, p *Prov, rule string) {
+	hn := c.Fn("HashName")
+	if hn == nil {
+		return
+	}
+	// the predicate, by vocabulary
+	var preds []*ssa.Function
+	for _, f := range c.SortedFuncs() {
+		res := f.Signature.Results()
+		if res.Len() != 1 || !isBoolType(res.At(0).Type()) || len(f.Params) < 1 {
+			continue
+		}
+		words := map[string]bool{}
+		allInstrs(f, func(i ssa.Instruction) {
+			for _, op := range i.Operands(nil) {
+				if *op != nil {
+					if s, ok := constString(*op); ok {
+						words[s] = true
+					}
+				}
+			}
+		})
+		if words["$binary"] && words["base64"] && words["subType"] {
+			preds = append(preds, f)
+		}
+	}
+	isPred := func(f *ssa.Function) bool {
+		for _, g := range preds {
+			if g == f {
+				return true
+			}
+		}
+		return false
+	}
+	n := 0
+	var fns []*ssa.Function
+	for f := range p.Zone {
+		fns = append(fns, f)
+	}
+	sort.Slice(fns, func(i, j int) bool { return fns[i].Name() < fns[j].Name() })
+	for _, f := range fns {
+		for _, call := range callsIn(f, func(k string, cc *ssa.Call) bool { return cc.Call.StaticCallee() == hn }) {
+			// the argument is the key of the member being walked
+			e, name, isLoad := elemFieldLoad(peel(canon(call.Call.Args[0])))
+			if !isLoad || name != "Key" {
+				continue
+			}
+			// ... and the result is used as the key of a Set
+			usedAsKey := false
+			var visit func(v ssa.Value, d int)
+			visit = func(v ssa.Value, d int) {
+				if d > 4 || usedAsKey {
+					return
+				}
+				for _, use := range referrers(v) {
+					switch x := use.(type) {
+					case *ssa.Phi:
+						visit(x, d+1)
+					case *ssa.Store:
+						if al, ok := x.Addr.(*ssa.Alloc); ok && x.Val == v {
+							for _, r2 := range referrers(al) {
+								if ld, ok := r2.(*ssa.UnOp); ok {
+									visit(ld, d+1)
+								}
+							}
+						}
+					case *ssa.Call:
+						if calleeKey(&x.Call) == omMethod("Set") && len(x.Call.Args) == 3 && x.Call.Args[1] == v {
+							usedAsKey = true
+						}
+					}
+				}
+			}
+			visit(call, 0)
+			if !usedAsKey {
+				continue
+			}
+			n++
+			construct := fmt.Sprintf("%s:key-rename-spares-wrapper-members#%d", f.Name(), n)
+			okGuard, how := false, ""
+			for _, a := range p.atomsAt(call.Block()) {
+				if a.Kind == "tbl" && a.Pol && (a.Name == "Pipeline" || a.Name == "OperatorMap") {
+					okGuard, how = true, "the parent is a "+a.Name+"-typed position (names the client chooses: $facet outputs, search facets)"
+				}
+			}
+			for _, ft := range allFacts(call.Block()) {
+				pc, ok := peel(ft.Cond).(*ssa.Call)
+				if !ok || ft.Pol {
+					continue
+				}
+				if g := c.staticPkgCallee(&pc.Call); g != nil && isPred(g) {
+					for _, arg := range pc.Call.Args {
+						e2, n2, l2 := elemFieldLoad(peel(canon(arg)))
+						if l2 && n2 == "Key" && e2 == e {
+							okGuard, how = true, "under !"+g.Name()+"(parent, key)"
+						}
+					}
+				}
+			}
+			r.Check(okGuard, rule, construct, c.InstrPos(call), "the key is renamed only "+how,
+				"a member's key is replaced by its pseudonym without sparing the fixed member names of extended-JSON wrappers: under --redactFieldNames {$binary:{base64, subType}} (and $regularExpression / $timestamp) lose their member names where this walker meets them, so the value is no longer a member of its class")
+		}
+	}
+	r.Analysed["key_rename_sites"] = n
+	if n < 3 {
+		r.Bad(rule, "key-rename-sites", "-", fmt.Sprintf("anchor lost: %d key-rename sites in the walkers (4 today)", n))
 	}
 }
